@@ -12,7 +12,7 @@ import sys
 
 from pv import core, c19, c19_gen
 
-KERNELS = ["L|1,n,1|inc", "L|n,1,-1|both", "S|s1", "L|1,n-1,3|stencil"]
+KERNELS = ["L|1,n,1|inc", "L|n,1,-1|both", "S|s1", "L|m,n,1|stencil"]
 
 
 def flip_sign(text):
